@@ -64,6 +64,9 @@ def ann_kinds():
                                         'W {},2'.format(a + 6), 'W {},4'.format(a + 8)], None))
     # a mixed-type group whose last member is comment-less code, followed by comment-less code (1-byte instructions)
     k('M-tail-C', lambda t, a, a2: (['M {},2 {}'.format(a + 1, t), 'B {},1'.format(a + 1), 'C {},1'.format(a + 2), 'C {},1'.format(a + 3)], None))
+    # three DEFBs and one operand-less instruction under one comment (more instructions than sub-blocks), then plain code
+    k('M-tail-B3C', lambda t, a, a2: (['M {},4 {}'.format(a, t), 'B {},3,1'.format(a), 'C {},1'.format(a + 3)], None))
+    k('M-tail-B2B2C', lambda t, a, a2: (['M {},5 {}'.format(a + 1, t), 'B {},2,1'.format(a + 1), 'W {},2'.format(a + 3), 'C {},1'.format(a + 5)], None))
     k('M-tail-C3', lambda t, a, a2: (['M {},3 {}'.format(a + 2, t), 'C {},1'.format(a + 2), 'B {},1'.format(a + 3), 'C {},1'.format(a + 4)], None))
     # a mixed-type group whose last code sub-block ends in an instruction without numeric operands (skool2ctl -b
     # would trim it from a comment-less sub-block), followed by comment-less code
@@ -269,6 +272,9 @@ def cases(tier):
                     continue
                 ctl = annotated_ctl(fill, btype, [(kname, text)])
                 yield ('S3', fill, ctl, '{}:{}#{}/noend'.format(btype, kname, ti), ('-k',) if needs_keep(ctl) else (), ('NOEND',))
+                # ... and with a title on that final 'i' entry (it then does produce output)
+                ctl_t = ctl.replace('\ni {}\n'.format(A + 16), '\ni {} Unused\n'.format(A + 16))
+                yield ('S3', fill, ctl_t, '{}:{}#{}/noend-titled'.format(btype, kname, ti), ('-k',) if needs_keep(ctl) else (), ('NOEND',))
     pair_texts = (2, 7, 10) if tier == 'quick' else range(len(TEXTS))
     pair_layouts = BASE_LAYOUTS[:2] if tier == 'quick' else BASE_LAYOUTS
     for fill, btype in pair_layouts:
